@@ -159,6 +159,233 @@ def c20_map(R):
             verify(R, "C20.map.sequence", AST + "::SourceMapping.GetLineFromOffset", run2, replay2, label=f"{k}-lines")
 
 
+# ---------------------------------------------------------------------------------------------------------------------------------
+# C20.map.unbounded: the same contract for texts of ANY number of lines -- the loop of SourceMapping.__init__ is cut at an inductive
+# invariant (pyvc.loopcut), the lookups are verified against the object state that invariant describes, bisect is cut by its contract.
+
+_S = z3.Function("S", z3.IntSort(), z3.IntSort())        # S(i): offset at which line i starts (specification function)
+_L = z3.Function("L", z3.IntSort(), z3.IntSort())        # L(i): length of line i
+
+
+def _spec_axioms_at(i):
+    """Instances at i of:  forall i >= 0. L(i) >= 0  and  S(i + 1) == S(i) + L(i) + 1;  plus S(0) == 0."""
+    i = term(i)
+    return z3.And(_S(z3.IntVal(0)) == 0, z3.Implies(i >= 0, z3.And(_L(i) >= 0, _S(i + 1) == _S(i) + _L(i) + 1)))
+
+
+class _SymLines:
+    """What split('\\n') returns for an opaque text of n >= 1 lines (n symbolic); line i has length L(i)."""
+
+    def __init__(self, n):
+        self.n = n
+
+    def __getitem__(self, i):
+        # a prefix of the lines (`lines[:c]`): still the lines of the text, but possibly fewer of them
+        if isinstance(i, slice) and i.start in (None, 0) and i.step in (None, 1) and (i.stop is None or (isinstance(i.stop, int) and i.stop >= 0)):
+            return self if i.stop is None else _SymLines(SymInt(z3.If(self.n.t < i.stop, self.n.t, z3.IntVal(i.stop))))
+        raise Unsupported(f"opaque line sequence indexed by {i!r}")
+
+
+class _SymText:
+    def __init__(self, n):
+        self.n = n
+
+    def split(self, sep=None, maxsplit=-1):
+        if sep != "\n" or maxsplit != -1:
+            raise Unsupported(f"text split by {sep!r}")
+        return _SymLines(self.n)
+
+    def __getattr__(self, name):
+        raise Unsupported(f"opaque source text: .{name} is not modelled in the unbounded contract (only split('\\n'))")
+
+
+def _len2(x):
+    from pyvc.sym import sym_len
+    if isinstance(x, _Line):
+        return x.length
+    return sym_len(x)
+
+
+class _BisectContract:
+    """bisect cut by its contract (stdlib, C implementation: assumed).  requires: a is sorted (adjacent form, proved at the call for a
+    fresh index);  ensures for r = bisect_right(a, x): 0 <= r <= len(a), r > 0 -> a[r-1] <= x, r < len(a) -> x < a[r]
+    (bisect_left: r > 0 -> a[r-1] < x, r < len(a) -> x <= a[r])."""
+
+    def __init__(self, ctx, goals, hyp_at):
+        self.ctx, self.goals, self.hyp_at = ctx, goals, hyp_at
+
+    def _call(self, a, x, lo=0, hi=None, *, key=None, left=False):
+        from pyvc.sym import seq_view
+        if lo != 0 or hi is not None or key is not None:
+            raise Unsupported("bisect with lo/hi/key")
+        arr, n = seq_view(a)
+        ctx = self.ctx
+        j = ctx.int("sorted_at").t
+        self.hyp_at(j)
+        self.hyp_at(j + 1)
+        self.goals.append(("bisect.requires-sorted", z3.Implies(z3.And(j >= 0, j + 1 < n), arr[j] <= arr[j + 1])))
+        r = ctx.int("bisect_result")
+        xt = term(x)
+        ctx.assume(z3.And(r.t >= 0, r.t <= n))
+        if left:
+            ctx.assume(z3.And(z3.Implies(r.t > 0, arr[r.t - 1] < xt), z3.Implies(r.t < n, xt <= arr[r.t])))
+        else:
+            ctx.assume(z3.And(z3.Implies(r.t > 0, arr[r.t - 1] <= xt), z3.Implies(r.t < n, xt < arr[r.t])))
+        self.hyp_at(r.t - 1)
+        self.hyp_at(r.t)
+        self.hyp_at(z3.IntVal(0))
+        return r
+
+    def bisect_right(self, a, x, lo=0, hi=None, *, key=None):
+        return self._call(a, x, lo, hi, key=key)
+
+    bisect = bisect_right
+
+    def bisect_left(self, a, x, lo=0, hi=None, *, key=None):
+        return self._call(a, x, lo, hi, key=key, left=True)
+
+
+def _sm_state_names(cutf, a):
+    """Which attribute of the mapping is the line table and which local the running offset: read off the state the real prologue
+    produces (an empty list attribute, an integer local that is no parameter) -- the invariant does not depend on how they are named."""
+    probe = object.__new__(a.SourceMapping)
+    kind, _, loc = cutf.prologue(probe, "", "<probe>")
+    lists = [k for k, v in probe.__dict__.items() if isinstance(v, list)]
+    accs = [k for k, v in loc.items() if k not in ("self", "source", "sourceName") and isinstance(v, int) and not isinstance(v, bool)]
+    if len(lists) != 1 or len(accs) != 1:
+        raise Missing(f"SourceMapping.__init__: cannot identify line table / running offset before the loop (list attributes {lists}, integer locals {accs})")
+    return lists[0], accs[0], {k: v for k, v in probe.__dict__.items() if k != lists[0]}, loc
+
+
+UNB_REPLAY = MAP_REPLAY
+
+
+@family("C20.map.unbounded", props=["C20"], functions=[AST + "::SourceMapping.__init__", AST + "::SourceMapping.GetLineFromOffset", AST + "::SourceMapping.GetLineStartOffset"],
+        assumptions=["the text is opaque: split('\\n') yields n >= 1 lines, n SYMBOLIC (no bound), line i of length L(i) >= 0 (str.split trusted)",
+                     "loop of SourceMapping.__init__ cut mechanically (pyvc.loopcut) at the invariant Inv(k): the line table has k entries, entry i is S(i) for every i < k, "
+                     "the running offset is S(k); S(0) = 0, S(i+1) = S(i) + L(i) + 1.  Universally quantified hypotheses are instantiated explicitly, universally quantified goals are proved for a fresh index",
+                     "bisect (C implementation) cut by its contract; its sortedness precondition is an obligation at the call",
+                     "len shim bound in nsl.ast globals for opaque lines and symbolic-length lists"])
+def c20_map_unbounded(R):
+    """For every text (any number of lines, any line lengths) and every offset in [0, |text|]: the line reported for the offset is the r with
+    S(r) <= offset < S(r+1), and GetLineStartOffset(i) = S(i) for every line i -- by induction over the lines (loop cut), not by enumeration."""
+    import nsl.ast as a
+    from pyvc import loopcut
+    from pyvc.sym import SymList, seq_view, All
+    INIT = AST + "::SourceMapping.__init__"
+    cutf = loopcut.cut(a.SourceMapping.__init__, 0)
+    tab, acc, other_attrs, _ = _sm_state_names(cutf, a)
+
+    def fresh_state(ctx, k):
+        A = z3.Array("A", z3.IntSort(), z3.IntSort())
+        self = object.__new__(a.SourceMapping)
+        self.__dict__.update(other_attrs)
+        self.__dict__[tab] = SymList(A, k)
+        return self, A
+
+    def inv_hyp(ctx, A, k):
+        inv = All(0, k, lambda i: A[i] == _S(i))
+        return lambda t: ctx.assume(z3.And(inv.at(t), _spec_axioms_at(t)))
+
+    # ---- init: Inv(0) after the statements before the loop, and the loop ranges over the lines of the text
+    def run_init(ctx):
+        n = ctx.int("n")
+        ctx.assume(n >= 1)
+        ctx.assume(_S(z3.IntVal(0)) == 0)
+        self = object.__new__(a.SourceMapping)
+        text = _SymText(n)
+        with patched(a, len=_len2):
+            kind, _, loc = cutf.prologue(self, text, "<f>")
+            it = cutf.iterable(**{k: v for k, v in loc.items() if k in cutf.params})
+        arr, ln = seq_view(self.__dict__[tab])
+        return [("init.table-empty", ln == 0), ("init.offset-zero", term(loc[acc]) == _S(z3.IntVal(0))), ("init.ranges-over-all-lines", (it.n.t == n.t) if isinstance(it, _SymLines) else False)]
+
+    def replay_init(model, clause):
+        k = int(model.get("n", 3))
+        return dict(script=MAP_REPLAY.replace("{{texts}}", repr(_texts_from(model, 2) + (["\n".join("ab" for _ in range(k))] if 1 <= k <= 20000 else []))))
+
+    verify(R, "C20.map.unbounded", INIT, run_init, replay_init, label="loop-cut")
+
+    # ---- preserve: Inv(k) and k < n  ==>  Inv(k + 1) after one iteration on line k
+    def run_pres(ctx):
+        n, k, j = ctx.int("n"), ctx.int("k"), ctx.int("j")
+        ctx.assume(n >= 1)
+        ctx.assume(k >= 0)
+        ctx.assume(k.t < n.t)
+        self, A = fresh_state(ctx, k)
+        cur0 = ctx.int("offset")
+        ctx.assume(cur0.t == _S(k.t))
+        hyp = inv_hyp(ctx, A, k.t)
+        hyp(j.t)
+        hyp(k.t)
+        state = dict(self=self, source=_SymText(n), sourceName="<f>")
+        state[acc] = cur0
+        with patched(a, len=_len2):
+            kind, _, loc = cutf.step(cut_elem_=_Line(SymInt(_L(k.t))), **state)
+        arr, ln = seq_view(self.__dict__[tab])
+        inv2 = All(0, k.t + 1, lambda i: arr[i] == _S(i))
+        return [("preserve.completes-the-iteration", kind in ("next", "continue")),
+                ("preserve.one-entry-per-line", ln == k.t + 1),
+                ("preserve.entries-are-line-starts", inv2.at(j.t)),
+                ("preserve.offset-is-next-line-start", term(loc[acc]) == _S(k.t + 1))]
+
+    def replay_pres(model, clause):
+        return dict(script=MAP_REPLAY.replace("{{texts}}", repr(_texts_from({"len0": 3, "len1": 0, "len2": 2}, 3))))
+
+    verify(R, "C20.map.unbounded", INIT, run_pres, replay_pres, label="loop-cut")
+
+    # ---- exit: with Inv(n) the statements after the loop leave the table as it is (postcondition of __init__ = Inv(n))
+    def run_exit(ctx):
+        n, j = ctx.int("n"), ctx.int("j")
+        ctx.assume(n >= 1)
+        self, A = fresh_state(ctx, n)
+        cur0 = ctx.int("offset")
+        ctx.assume(cur0.t == _S(n.t))
+        inv_hyp(ctx, A, n.t)(j.t)
+        state = dict(self=self, source=_SymText(n), sourceName="<f>")
+        state[acc] = cur0
+        with patched(a, len=_len2):
+            kind, val, loc = cutf.epilogue(**state)
+        arr, ln = seq_view(self.__dict__[tab])
+        return [("exit.table-complete", z3.And(ln == n.t, All(0, n.t, lambda i: arr[i] == _S(i)).at(j.t))), ("exit.returns-none", val is None)]
+
+    verify(R, "C20.map.unbounded", INIT, run_exit, replay_pres, label="loop-cut")
+
+    # ---- lookups on the state Inv(n) describes
+    def run_lookup(ctx):
+        n, off = ctx.int("n"), ctx.int("off")
+        ctx.assume(n >= 1)
+        self, A = fresh_state(ctx, n)
+        hyp = inv_hyp(ctx, A, n.t)
+        ctx.assume(off >= 0)
+        ctx.assume(off.t <= _S(n.t) - 1)          # |text| = S(n) - 1
+        hyp(n.t - 1)
+        goals = []
+        with patched(a, len=_len2, bisect=_BisectContract(ctx, goals, hyp)):
+            r = m_line(self, off)
+        rt = term(r)
+        hyp(rt)
+        goals.append(("lookup.line-in-range", z3.And(rt >= 0, rt < n.t)))
+        goals.append(("lookup.line-contains-offset", z3.And(_S(rt) <= off.t, off.t < _S(rt + 1))))
+        return goals
+
+    m_line = a.SourceMapping.GetLineFromOffset
+    verify(R, "C20.map.unbounded", AST + "::SourceMapping.GetLineFromOffset", run_lookup, replay_pres, label="any-number-of-lines")
+
+    def run_start(ctx):
+        n, i = ctx.int("n"), ctx.int("line")
+        ctx.assume(n >= 1)
+        ctx.assume(i >= 0)
+        ctx.assume(i.t < n.t)
+        self, A = fresh_state(ctx, n)
+        inv_hyp(ctx, A, n.t)(i.t)
+        with patched(a, len=_len2):
+            r = a.SourceMapping.GetLineStartOffset(self, i)
+        return [("line-start", term(r) == _S(i.t))]
+
+    verify(R, "C20.map.unbounded", AST + "::SourceMapping.GetLineStartOffset", run_start, replay_pres, label="any-number-of-lines")
+
+
 @family("C20.str", props=["C20"], functions=[AST + "::Location.__str__", AST + "::Location.__init__", AST + "::Location.GetBegin", AST + "::Location.GetEnd", AST + "::Location.IsUnknown"],
         assumptions=["formatted numbers are traced as tokens (FormatTrace): the code under contract builds the text with str.format and compares no strings",
                      "line count enumerated 1..4, line lengths and offsets symbolic"])
